@@ -1,13 +1,6 @@
 #!/bin/bash
-# Development tool: applies a patch to /tmp/wt/main and runs the quick checks of ALL properties of the patch's module(s); prints only non-silent ones.
+# Development tool: applies a patch to a scratch worktree and runs the quick checks of ALL properties (or the given ones); prints only non-silent ones.
+# usage: [WT=/tmp/wt/slotN] try_benign.sh <patch> [props...]
 patch=$1; shift
-cd /tmp/wt/main || exit 2
-git checkout -q -- . ; git clean -fdq
-if ! git apply "$patch" 2>/tmp/apply_wt.err; then echo "PATCH DOES NOT APPLY: $(head -3 /tmp/apply_wt.err)"; exit 2; fi
-mkdir -p /tmp/try_verif_wt; cp /verif/KNOWN_FINDINGS.txt /tmp/try_verif_wt/
 props="$@"; [ -z "$props" ] && props="C01 C02 C03 C04 C05 C06 C07 C08 C09 C10 C11 C12 C13 C14 C15 C16 C17 C18"
-for p in $props; do
-  out=$(${OTELCHECK:-/verif/bin/otelcheck} -property $p -tier quick -repo /tmp/wt/main -verif /tmp/try_verif_wt 2>&1); rc=$?
-  if [ $rc -ne 0 ]; then echo "== $p exit=$rc"; echo "$out" | grep -v "^VIOLATION\|^  key\|KNOWN-FINDING" | cut -c1-${WIDTH:-330} | head -${LINES_MAX:-8}; fi
-done
-cd /tmp/wt/main; git checkout -q -- . ; git clean -fdq
+LINES_MAX=${LINES_MAX:-8} WIDTH=${WIDTH:-330} /verif/scripts/try_patch.sh "$patch" $props | awk '/^== /{show=($3!="exit=0")} show{print}'
